@@ -7,6 +7,7 @@
 -/
 import GherkinVerif.Lemmas.C02Tree
 import GherkinVerif.Lemmas.AstIds
+import GherkinVerif.KDecide
 namespace GV
 namespace Lemmas
 open Spec
@@ -336,7 +337,7 @@ theorem shaped_of_validTree {G : Grammar} (hc : shapeCheck G = true) (start : Ru
         rw [shapedList_append, hsh.2]; rfl
 
 /-- the kernel-evaluated fact about the regenerated grammar -/
-theorem shapeCheck_gen : shapeCheck Gen.grammar = true := by decide +kernel
+theorem shapeCheck_gen : shapeCheck Gen.grammar = true := by kdecide
 
 /-- the tree of every accepted document is grammar-shaped -/
 theorem shaped_of_valid_gen (t : TTree) (hv : ValidTree Gen.grammar .GherkinDocument t.kinds) :
